@@ -311,6 +311,12 @@ func (r *stReq) series(skip bool) (*seriesServer, error, bool) {
 		if err != nil {
 			return nil, nil, false
 		}
+		req.MaxResolutionWindow = int64(cfg.maxRes)
+		for i := 0; i < 5; i++ {
+			if cfg.aggrs&(1<<i) != 0 {
+				req.Aggregates = append(req.Aggregates, storepb.Aggr(i+1))
+			}
+		}
 		return srv, bs.Series(req, srv), true
 	}
 }
